@@ -739,66 +739,6 @@ def split_chunks(src):
     return chunks
 
 
-_AMBIGUOUS = ("a|", "b|", "c|", "d|extra-", "d|disjoint", "d|region-not-offsets", "d|expr|", "d|stmt|")
-
-
-def known_hazards(src):
-    """Syntactic features of a source that are the INPUT-side causes of the recorded patchedast defects
-    (hash inside a string, unvisited annotations / keyword-only parameters / class keywords / type
-    parameters, f-strings, special numeric spellings, starred / double-starred arguments, dangling commas,
-    try-else-finally, async comprehensions, extended slices, parenthesised expression statements, match,
-    non-NFKC identifiers, coding cookies, rb-prefixed strings).  Symptom keys that several causes share get
-    the suffix `|clean-source` when NONE of these is present, so that a new cause is not mistaken for a
-    recorded one."""
-    import ast
-    import io
-    import re
-    import tokenize
-    import unicodedata
-    try:
-        tree = ast.parse(src)
-    except SyntaxError:
-        return True
-    for n in ast.walk(tree):
-        if isinstance(n, ast.arguments) and (n.kwonlyargs or n.posonlyargs or n.kw_defaults):
-            return True
-        if isinstance(n, ast.arg) and n.annotation is not None:
-            return True
-        if isinstance(n, (ast.FunctionDef, ast.AsyncFunctionDef)) and (n.returns is not None or getattr(n, "type_params", None)):
-            return True
-        if isinstance(n, ast.ClassDef) and (n.keywords or getattr(n, "type_params", None)):
-            return True
-        if isinstance(n, (ast.AnnAssign, ast.JoinedStr, ast.Starred, ast.Match)) or type(n).__name__ in ("TypeAlias", "TryStar"):
-            return True
-        if isinstance(n, ast.keyword) and n.arg is None:
-            return True
-        if isinstance(n, ast.Try) and n.orelse and n.finalbody:
-            return True
-        if isinstance(n, ast.comprehension) and n.is_async:
-            return True
-        if isinstance(n, ast.Slice) and n.step is None and False:
-            return True
-        if isinstance(n, ast.Expr) and src.split("\n")[n.lineno - 1][n.col_offset:n.col_offset + 1] == "(":
-            return True
-        if isinstance(n, ast.Name) and unicodedata.normalize("NFKC", n.id) != n.id:
-            return True
-    if re.search(r"::", src) or re.search(r",\s*(\n|$|\)\s*=)", src) and re.search(r"=\s*[^=\n(\[{]*,\s*\n", src):
-        return True
-    if re.search(r"^[ \t\f]*#.*?coding[:=]", src, re.M):
-        return True
-    try:
-        for t in tokenize.generate_tokens(io.StringIO(src).readline):
-            if t.type in (tokenize.STRING, tokenize.FSTRING_MIDDLE) and "#" in t.string:
-                return True
-            if t.type == tokenize.STRING and re.match(r"(?i)(rb|br)", t.string):
-                return True
-            if t.type == tokenize.NUMBER and (("_" in t.string) or re.match(r"0[BOX]|0b", t.string)):
-                return True
-    except (tokenize.TokenError, IndentationError, SyntaxError):
-        return True
-    return False
-
-
 def check_source(src, res, origin, vio_limit=40):
     """Runs clauses a-d on one source text.  Returns the number of violations observed."""
     return _check(src, res, origin, vio_limit, 0)[0]
@@ -810,8 +750,6 @@ def _check(src, res, origin, vio_limit, level):
     from rope.refactor import patchedast
     nvio = [0]
     seen_keys = set()
-
-    hazard = [None]
 
     def report(key, what, **detail):
         nvio[0] += 1
